@@ -31,7 +31,7 @@ TABLE = {
     'C17': ('§6 C17', False, 'body = paragraphs and items in document order; script = stripped non-empty non-bracketed paragraphs in order; running-order script/body = concatenation over stories - for every document that has a roCreate, whatever its timing metadata, IDs and slugs (C17_text_any)', ''),
     'C18': ('§6 C18', True, 'paginated listing returns every key with the suffix across all pages (no empty page before a non-empty one); reader metadata is that of the restored object', 'real file I/O, bytes decoding, boto3 protocol: differential execution through an injected fake client'),
     'C19': ('§6 C19', True, 'detect output is the per-file map of the library classification (order preserved, one bad file cannot affect another line); merge output is the serialisation of the library merge; exit codes (an outfile that cannot be opened, and no input at all, are status 2)', 'argparse, real stdout/stderr, file writing: differential execution of mosromgr.cli.main in-process'),
-    'C20': ('§6 C20', False, 'exposed sources are exactly the IDs at the schema position, one element per ID, in order; a blank target is exposed as None; inspect lines are total on shaped messages and on running-order documents (whatever their timing metadata) and mention every source / carried / listed story ID', ''),
+    'C20': ('§6 C20', False, 'exposed sources are exactly the IDs at the schema position, one element per ID, in order; a blank target is exposed as None; inspect lines are total on shaped messages and on running-order documents (whatever their timing metadata) and mention every source / carried / listed story ID; the element objects of carried stories / items answer what the accessor theorems of C15 say of the same elements', ''),
 }
 
 
